@@ -132,8 +132,8 @@ func (env *specEnv) eval(e ast.Expr) Val {
 				ty = b.Ty
 			}
 			// comparison with nil
-			if id, ok := e.Y.(*ast.Ident); ok && id.Name == "nil" && a.Ty != nil {
-				if _, isSl := a.Ty.Underlying().(*types.Slice); isSl {
+			if id, ok := e.Y.(*ast.Ident); ok && id.Name == "nil" {
+				if a.sortIn(sc) == "Slice" {
 					t = "(= " + sRef(a.T) + " 0)"
 				} else {
 					t = "(= " + a.T + " 0)"
@@ -493,6 +493,12 @@ func (env *specEnv) call(e *ast.CallExpr) Val {
 			r = sRef(x.T)
 		}
 		return Val{T: "(>= " + r + " " + env.old.alloc + ")", Sort: "Bool"}
+	case "upd":
+		if !need(3) {
+			return Val{T: "false"}
+		}
+		a := arg(0)
+		return Val{T: "(store " + a.T + " " + arg(1).T + " " + arg(2).T + ")", Sort: a.sortIn(sc), Ty: a.Ty}
 	case "ref":
 		return Val{T: sRef(arg(0).T), Sort: "Int"}
 	case "addr":
